@@ -310,6 +310,24 @@ def run_span(case, drv):
         res.cmp_exact('Fiber.loss', impl_loss, 'SpectrumError' if ans['loss'] is None else b2f(ans['loss']))
     else:
         res.cmp_float('Fiber.loss', impl_loss, b2f(ans['loss']), abs_=1e-9)
+    # ---- the interpolation kernels themselves (numpy.interp clamps, interp1d raises outside the table)
+    if isinstance(p['loss_coef'], dict) and len(p['loss_coef']['value']) > 1:
+        from scipy.interpolate import interp1d
+        xp, fp = p['loss_coef']['frequency'], p['loss_coef']['value']
+        xs = freq + [xp[0] - 1e9, xp[-1] + 1e9, xp[0], xp[-1], xp[len(xp) // 2]]
+        ia = drv.ask('c05.interp', x=fl(xs), table=[[f2b(a), f2b(b)] for a, b in zip(xp, fp)])
+        res.cmp_floats('numpy.interp', np.interp(xs, xp, fp), [b2f(v) for v in ia['interp']])
+        f1 = interp1d(xp, fp)
+        impl1 = []
+        for x in xs:
+            try:
+                impl1.append(float(f1(x)))
+            except ValueError:
+                impl1.append(None)
+        model1 = [None if v is None else b2f(v) for v in ia['interp1d']]
+        res.cmp_exact('interp1d.bounds', [v is None for v in impl1], [v is None for v in model1])
+        res.cmp_floats('interp1d', [v for v in impl1 if v is not None],
+                       [m for v, m in zip(impl1, model1) if v is not None and m is not None])
     # ---- monitor: the loss budget, channel by channel, in dB
     dup = _dup_positions(p)
     for i in range(n):
